@@ -7,7 +7,7 @@ namespace Decls
 def seg (u : Unit) (order : List Name) : Cls → List Name
   | .iface => names (ofCls u.syms .iface)
   | .param => order
-  | .arg => u.args
+  | .arg => names (ofCls u.syms .arg)
   | .dtype => names (ofCls u.syms .dtype)
   | .other => names (ofCls u.syms .other)
   | _ => []
@@ -32,8 +32,8 @@ theorem mem_names_ofCls {l : List Sym} {c : Cls} {n : Name} :
   · rintro ⟨y, ⟨h1, h2⟩, h3⟩; exact ⟨y, h1, h3, by simpa using h2⟩
   · rintro ⟨y, h1, h3, h2⟩; exact ⟨y, ⟨h1, by simpa using h2⟩, h3⟩
 
-theorem mem_seg {u : Unit} (w : Wf u) {order : List Name} {as : List Sym}
-    (ho : orderParams (paramGraph u.syms) = some order) (ha : argSyms u.syms u.args = some as)
+theorem mem_seg {u : Unit} (w : Wf u) {order : List Name}
+    (ho : orderParams (paramGraph u.syms) = some order)
     {c : Cls} (hc : c.declarable = true) {n : Name} :
     n ∈ seg u order c ↔ ∃ y ∈ u.syms, y.name = n ∧ y.cls = c := by
   rcases declarable_cases hc with rfl | rfl | rfl | rfl | rfl
@@ -43,43 +43,37 @@ theorem mem_seg {u : Unit} (w : Wf u) {order : List Name} {as : List Sym}
     rw [hp.mem_iff]
     have : u.syms.filter isParam = ofCls u.syms .param := rfl
     rw [this]; exact mem_names_ofCls
-  · obtain ⟨h1, _⟩ := argSyms_spec ha
-    have hq := argSyms_perm w ha
-    show n ∈ u.args ↔ _
-    rw [← h1]
-    have : n ∈ names as ↔ n ∈ names (ofCls u.syms .arg) := (hq.map _).mem_iff
-    rw [this]; exact mem_names_ofCls
+  · exact mem_names_ofCls
   · exact mem_names_ofCls
   · exact mem_names_ofCls
 
-theorem names_genDecls {u : Unit} (w : Wf u) {order : List Name} {as : List Sym}
-    (ho : orderParams (paramGraph u.syms) = some order) (ha : argSyms u.syms u.args = some as) :
-    names (ofCls u.syms .iface ++ paramSyms u.syms order ++ as ++ ofCls u.syms .dtype ++ ofCls u.syms .other)
+theorem names_genDecls {u : Unit} (w : Wf u) {order : List Name}
+    (ho : orderParams (paramGraph u.syms) = some order) :
+    names (ofCls u.syms .iface ++ paramSyms u.syms order ++ ofCls u.syms .arg ++ ofCls u.syms .dtype ++ ofCls u.syms .other)
       = seg u order .iface ++ seg u order .param ++ seg u order .arg ++ seg u order .dtype ++ seg u order .other := by
   have h2 := (paramSyms_perm w ho).2.2
-  have h3 := (argSyms_spec ha).1
-  simp only [names] at h2 h3
-  simp only [names, List.map_append, seg, h2, h3]
+  simp only [names] at h2
+  simp only [names, List.map_append, seg, h2]
 
-theorem not_mem_seg_of_ne {u : Unit} (w : Wf u) {order : List Name} {as : List Sym}
-    (ho : orderParams (paramGraph u.syms) = some order) (ha : argSyms u.syms u.args = some as)
+theorem not_mem_seg_of_ne {u : Unit} (w : Wf u) {order : List Name}
+    (ho : orderParams (paramGraph u.syms) = some order)
     {x : Sym} (hx : x ∈ u.syms) {c : Cls} (hc : c.declarable = true) (hne : x.cls ≠ c) :
     x.name ∉ seg u order c := by
   intro h
-  obtain ⟨y, hy, hyn, hyc⟩ := (mem_seg w ho ha hc).mp h
+  obtain ⟨y, hy, hyn, hyc⟩ := (mem_seg w ho hc).mp h
   have := eq_of_name_eq w.nodup hy hx hyn
   subst this; exact hne hyc
 
 /-- position of a declarable symbol in the written declarations -/
-theorem pos_eq {u : Unit} (w : Wf u) {order : List Name} {as : List Sym}
-    (ho : orderParams (paramGraph u.syms) = some order) (ha : argSyms u.syms u.args = some as)
+theorem pos_eq {u : Unit} (w : Wf u) {order : List Name}
+    (ho : orderParams (paramGraph u.syms) = some order)
     {x : Sym} (hx : x ∈ u.syms) (hd : x.cls.declarable = true) :
     (seg u order .iface ++ seg u order .param ++ seg u order .arg ++ seg u order .dtype ++ seg u order .other).idxOf x.name
       = offset u order x.cls + (seg u order x.cls).idxOf x.name ∧
     (seg u order x.cls).idxOf x.name < (seg u order x.cls).length := by
-  have hin : x.name ∈ seg u order x.cls := (mem_seg w ho ha hd).mpr ⟨x, hx, rfl, rfl⟩
+  have hin : x.name ∈ seg u order x.cls := (mem_seg w ho hd).mpr ⟨x, hx, rfl, rfl⟩
   refine ⟨?_, List.idxOf_lt_length_iff.mpr hin⟩
-  have hn := fun c (hc : c.declarable = true) (hne : x.cls ≠ c) => not_mem_seg_of_ne w ho ha hx hc hne
+  have hn := fun c (hc : c.declarable = true) (hne : x.cls ≠ c) => not_mem_seg_of_ne w ho hx hc hne
   rcases declarable_cases hd with h | h | h | h | h
   · rw [h] at hin ⊢
     simp [List.idxOf_append, hin, offset]
